@@ -67,7 +67,11 @@ def selftest(tier):
     # ---------------- reader family
     r = core.run_mc("MC_C08.tla", "MC_C08_quick.cfg", "selftest-mc-c08")
     from . import reader
-    progs = reader.concretise(rnd.sample(r["progs"], 60), "ST", "quick", core.seed(), 1)
+    r3 = core.run_mc("MC_C03.tla", "MC_C03_quick.cfg", "selftest-mc-c03")
+    newops = [p for p in r3["progs"] if any(o["op"] in ("RJ", "WCL", "RDO") or (o["op"] == "JA" and o.get("r")) for o in p["reads"])]
+    wcp = [p for p in r["progs"] if any(o["op"] in ("WCP", "SWD") for o in p["reads"])]
+    progs = reader.concretise(rnd.sample(r["progs"], 60) + rnd.sample(newops, min(120, len(newops))) + rnd.sample(wcp, min(30, len(wcp))),
+                              "ST", "quick", core.seed(), 1)
     core.rundir("selftest-r")
     files = core.drive("reader", progs, "selftest-r", shards=4)
     tr = _load(files)
@@ -82,6 +86,16 @@ def selftest(tier):
         ("pong/close reply removed", lambda e: any(o.get("t") == "TX" for o in e.get("obs", [])), lambda t, i: t[i].__setitem__("obs", [o for o in t[i]["obs"] if o.get("t") != "TX"])),
         ("handler invocation removed", lambda e: any(o.get("t") == "H" for o in e.get("obs", [])), lambda t, i: t[i].__setitem__("obs", [o for o in t[i]["obs"] if o.get("t") != "H"][:])),
         ("close error code changed", lambda e: e.get("err", {}).get("cls") == "close" and e["err"].get("cand"), lambda t, i: t[i]["err"].__setitem__("code", t[i]["err"]["code"] + 1)),
+        ("RJ: value attributed to another message", lambda e: e["e"] == "RJ" and e.get("ok") and e["cand"], lambda t, i: t[i].__setitem__("cand", [99])),
+        ("RJ: failure reported as success", lambda e: e["e"] == "RJ" and not e.get("ok") and e["err"]["cls"] == "other",
+         lambda t, i: (t[i].__setitem__("ok", True), t[i].__setitem__("err", {"cls": "nil", "id": -1, "code": 0, "cand": []}))),
+        ("WCL: close frame of the application not written", lambda e: e["e"] == "WCL" and e["obs"], lambda t, i: t[i].__setitem__("obs", [])),
+        ("WCL: second close reported as sent", lambda e: e["e"] == "WCL" and e["err"]["cls"] == "closesent",
+         lambda t, i: t[i].__setitem__("err", {"cls": "nil", "id": -1, "code": 0, "cand": []})),
+        ("RDO: stale reader delivers a byte", lambda e: e["e"] == "RDO", lambda t, i: t[i].__setitem__("n", 1)),
+        ("JA: joined length + 1", lambda e: e["e"] == "JA" and e["segs"], lambda t, i: t[i].__setitem__("n", t[i]["n"] + 1)),
+        ("WCP: timed-out WriteControl reported as sent", lambda e: e["e"] == "WCP" and e["err"]["cls"] == "timeout",
+         lambda t, i: t[i].__setitem__("err", {"cls": "nil", "id": -1, "code": 0, "cand": []})),
         ("sticky error identity changes", lambda e: False, None),
     ]
     allc = []
@@ -109,7 +123,10 @@ def selftest(tier):
     r = core.run_mc("MC_W.tla", "MC_W_conform_quick.cfg", "selftest-mc-w")
     from . import writer
     ps = [p for p in r["progs"] if p["conns"][0]["pool"]]
-    progs = writer.concretise(rnd.sample(ps, 60), "STW", "quick", core.seed(), 1, [7, 16, 125])
+    rinv = core.run_mc("MC_W.tla", "MC_W_invalid_quick.cfg", "selftest-mc-winv")
+    pj = [p for p in rinv["progs"] if p["conns"][0]["pool"] and any(o["op"] == "WJB" for o in p["ops"])]
+    prf = [p for p in ps if any(o["op"] == "WR" and o.get("via") == "rf" for o in p["ops"])]
+    progs = writer.concretise(rnd.sample(ps, 60) + rnd.sample(pj, min(40, len(pj))) + rnd.sample(prf, min(200, len(prf))), "STW", "quick", core.seed(), 1, [7, 16, 125])
     core.rundir("selftest-w")
     files = core.drive("writer", progs, "selftest-w", shards=4)
     tr = _load(files)
@@ -124,16 +141,30 @@ def selftest(tier):
                 return False
             fn(t[i]["tx"], ks[0])
         return ch
+    def fin_frames(e):
+        return [k for k, o in enumerate(e.get("tx", [])) if o.get("t") == "F" and o.get("fin")]
+
+    def fin_change(fn):
+        def ch(t, i):
+            ks = fin_frames(t[i])
+            if not ks:
+                return False
+            fn(t[i]["tx"], ks[0])
+        return ch
+    # (flush points are free in the envelope: the length or the absence of a NON-final frame of a message that the program
+    #  never completes is not decidable, so these two corruptions are applied to completing frames)
     wcases = [
         # (the wire length of a COMPRESSED frame is opaque to the model: only uncompressed, attributed frames are mandatory)
-        ("frame length + 1", lambda e: [k for k in _first_tx(e, "F")[:1] if e["tx"][k]["m"] >= 0], tx_change("F", lambda tx, k: tx[k].__setitem__("len", tx[k]["len"] + 1))),
+        ("frame length + 1", lambda e: [k for k in fin_frames(e)[:1] if e["tx"][k]["m"] >= 0], fin_change(lambda tx, k: tx[k].__setitem__("len", tx[k]["len"] + 1))),
         ("FIN bit flipped", lambda e: _first_tx(e, "F"), tx_change("F", lambda tx, k: tx[k].__setitem__("fin", not tx[k]["fin"]))),
         ("mask bit flipped", lambda e: _first_tx(e, "F"), tx_change("F", lambda tx, k: tx[k].__setitem__("mk", not tx[k]["mk"]))),
-        ("frame dropped", lambda e: _first_tx(e, "F"), tx_change("F", lambda tx, k: tx.pop(k))),
+        ("frame dropped", lambda e: fin_frames(e), fin_change(lambda tx, k: tx.pop(k))),
         ("deadline of a frame changed", lambda e: _first_tx(e, "SWD") and _first_tx(e, "F"), tx_change("SWD", lambda tx, k: tx[k].__setitem__("d", "d2" if tx[k]["d"] != "d2" else "d1"))),
         ("pool Put dropped", lambda e: _first_tx(e, "PUT"), tx_change("PUT", lambda tx, k: tx.pop(k))),
         ("pool Put of another buffer", lambda e: [k for k in _first_tx(e, "PUT") if e["tx"][k]["buf"] > 0], tx_change("PUT", lambda tx, k: tx[k].__setitem__("buf", tx[k]["buf"] + 7))),
         ("success reported as error", lambda e: e["e"] in ("WM", "WC", "CL") and e["err"]["cls"] == "nil", lambda t, i: t[i].__setitem__("err", {"cls": "other", "id": 9})),
+        ("WRS: fewer bytes taken than reported", lambda e: e["e"] == "WRS" and e["err"]["cls"] == "src" and e["ret"] > 0, lambda t, i: t[i].__setitem__("ret", t[i]["ret"] - 1)),
+        ("WJB: unencodable value reported as sent", lambda e: e["e"] == "WJB" and e["err"]["cls"] == "other", lambda t, i: t[i].__setitem__("err", {"cls": "nil", "id": -1})),
         ("payload attributed to another message", lambda e: [k for k in _first_tx(e, "F") if e["tx"][k]["m"] >= 0], tx_change("F", lambda tx, k: tx[k].__setitem__("m", tx[k]["m"] + 50))),
     ]
     allc, bycase = [], {}
@@ -180,7 +211,15 @@ def selftest(tier):
                 t.insert(i + 1, {"e": "Op", "t": e["t"], "it": {"t": "SWD", "d": "zero", "err": False}})
                 return
         return False
+    def put_by_other(t, _i):
+        for i in range(1, len(t)):
+            e = t[i]
+            if e["e"] == "Op" and e["it"]["t"] == "PUT":
+                e["t"] = "K1"
+                return
+        return False
     ccases = [
+        ("pool Put by a WriteControl caller", lambda e: True, put_by_other),
         ("foreign transport op inside a frame", lambda e: True, swap_into_frame),
         ("transport op after the close frame", lambda e: True, frame_after_close),
         ("timeout reported although frame written", lambda e: e["e"] == "Ret" and e["t"] in ("K1", "K2") and e["err"]["cls"] == "nil" and e.get("_api") == "WC",
